@@ -244,7 +244,9 @@ public:
     template <typename OtherType>
     bool equals(OtherType const& otherhist) const
     {
-        bool check = (dimension() == otherhist.dimension());
+        // the same number of bins, and (below) every bin of the other histogram found here with
+        // the same value: bins that only this histogram has make the two unequal as well
+        bool check = (dimension() == otherhist.dimension()) && (base_t::size() == otherhist.size());
 
         using other_value_t = typename OtherType::value_type;
         std::for_each(otherhist.begin(), otherhist.end(), [&](other_value_t const& v) {
